@@ -5,15 +5,7 @@
 (define-fun BIAS () Int 6176)
 (declare-const emptyArr (Array Int Int))
 (define-fun pow2 ((n Int)) Int
-  (ite (<= n 0) 1 (ite (= n 1) 2 (ite (= n 2) 4 (ite (= n 3) 8 (ite (= n 4) 16 (ite (= n 5) 32 (ite (= n 6) 64 (ite (= n 7) 128
-  (ite (= n 8) 256 (ite (= n 9) 512 (ite (= n 10) 1024 (ite (= n 11) 2048 (ite (= n 12) 4096 (ite (= n 13) 8192 (ite (= n 14) 16384 (ite (= n 15) 32768
-  (ite (= n 16) 65536 (ite (= n 17) 131072 (ite (= n 18) 262144 (ite (= n 19) 524288 (ite (= n 20) 1048576 (ite (= n 21) 2097152 (ite (= n 22) 4194304 (ite (= n 23) 8388608
-  (ite (= n 24) 16777216 (ite (= n 25) 33554432 (ite (= n 26) 67108864 (ite (= n 27) 134217728 (ite (= n 28) 268435456 (ite (= n 29) 536870912 (ite (= n 30) 1073741824 (ite (= n 31) 2147483648
-  (ite (= n 32) 4294967296 (ite (= n 33) 8589934592 (ite (= n 34) 17179869184 (ite (= n 35) 34359738368 (ite (= n 36) 68719476736 (ite (= n 37) 137438953472 (ite (= n 38) 274877906944 (ite (= n 39) 549755813888
-  (ite (= n 40) 1099511627776 (ite (= n 41) 2199023255552 (ite (= n 42) 4398046511104 (ite (= n 43) 8796093022208 (ite (= n 44) 17592186044416 (ite (= n 45) 35184372088832 (ite (= n 46) 70368744177664 (ite (= n 47) 140737488355328
-  (ite (= n 48) 281474976710656 (ite (= n 49) 562949953421312 (ite (= n 50) 1125899906842624 (ite (= n 51) 2251799813685248 (ite (= n 52) 4503599627370496 (ite (= n 53) 9007199254740992 (ite (= n 54) 18014398509481984 (ite (= n 55) 36028797018963968
-  (ite (= n 56) 72057594037927936 (ite (= n 57) 144115188075855872 (ite (= n 58) 288230376151711744 (ite (= n 59) 576460752303423488 (ite (= n 60) 1152921504606846976 (ite (= n 61) 2305843009213693952 (ite (= n 62) 4611686018427387904 (ite (= n 63) 9223372036854775808
-  18446744073709551616)))))))))))))))))))))))))))))))))))))))))))))))))))))))))))))))))
+  (ite (<= n 0) 1 (ite (= n 1) 2 (ite (= n 2) 4 (ite (= n 3) 8 (ite (= n 4) 16 (ite (= n 5) 32 (ite (= n 6) 64 (ite (= n 7) 128 (ite (= n 8) 256 (ite (= n 9) 512 (ite (= n 10) 1024 (ite (= n 11) 2048 (ite (= n 12) 4096 (ite (= n 13) 8192 (ite (= n 14) 16384 (ite (= n 15) 32768 (ite (= n 16) 65536 (ite (= n 17) 131072 (ite (= n 18) 262144 (ite (= n 19) 524288 (ite (= n 20) 1048576 (ite (= n 21) 2097152 (ite (= n 22) 4194304 (ite (= n 23) 8388608 (ite (= n 24) 16777216 (ite (= n 25) 33554432 (ite (= n 26) 67108864 (ite (= n 27) 134217728 (ite (= n 28) 268435456 (ite (= n 29) 536870912 (ite (= n 30) 1073741824 (ite (= n 31) 2147483648 (ite (= n 32) 4294967296 (ite (= n 33) 8589934592 (ite (= n 34) 17179869184 (ite (= n 35) 34359738368 (ite (= n 36) 68719476736 (ite (= n 37) 137438953472 (ite (= n 38) 274877906944 (ite (= n 39) 549755813888 (ite (= n 40) 1099511627776 (ite (= n 41) 2199023255552 (ite (= n 42) 4398046511104 (ite (= n 43) 8796093022208 (ite (= n 44) 17592186044416 (ite (= n 45) 35184372088832 (ite (= n 46) 70368744177664 (ite (= n 47) 140737488355328 (ite (= n 48) 281474976710656 (ite (= n 49) 562949953421312 (ite (= n 50) 1125899906842624 (ite (= n 51) 2251799813685248 (ite (= n 52) 4503599627370496 (ite (= n 53) 9007199254740992 (ite (= n 54) 18014398509481984 (ite (= n 55) 36028797018963968 (ite (= n 56) 72057594037927936 (ite (= n 57) 144115188075855872 (ite (= n 58) 288230376151711744 (ite (= n 59) 576460752303423488 (ite (= n 60) 1152921504606846976 (ite (= n 61) 2305843009213693952 (ite (= n 62) 4611686018427387904 (ite (= n 63) 9223372036854775808 (ite (= n 64) 18446744073709551616 (ite (= n 65) 36893488147419103232 (ite (= n 66) 73786976294838206464 (ite (= n 67) 147573952589676412928 (ite (= n 68) 295147905179352825856 (ite (= n 69) 590295810358705651712 (ite (= n 70) 1180591620717411303424 (ite (= n 71) 2361183241434822606848 (ite (= n 72) 4722366482869645213696 (ite (= n 73) 9444732965739290427392 (ite (= n 74) 18889465931478580854784 (ite (= n 75) 37778931862957161709568 (ite (= n 76) 75557863725914323419136 (ite (= n 77) 151115727451828646838272 (ite (= n 78) 302231454903657293676544 (ite (= n 79) 604462909807314587353088 (ite (= n 80) 1208925819614629174706176 (ite (= n 81) 2417851639229258349412352 (ite (= n 82) 4835703278458516698824704 (ite (= n 83) 9671406556917033397649408 (ite (= n 84) 19342813113834066795298816 (ite (= n 85) 38685626227668133590597632 (ite (= n 86) 77371252455336267181195264 (ite (= n 87) 154742504910672534362390528 (ite (= n 88) 309485009821345068724781056 (ite (= n 89) 618970019642690137449562112 (ite (= n 90) 1237940039285380274899124224 (ite (= n 91) 2475880078570760549798248448 (ite (= n 92) 4951760157141521099596496896 (ite (= n 93) 9903520314283042199192993792 (ite (= n 94) 19807040628566084398385987584 (ite (= n 95) 39614081257132168796771975168 (ite (= n 96) 79228162514264337593543950336 (ite (= n 97) 158456325028528675187087900672 (ite (= n 98) 316912650057057350374175801344 (ite (= n 99) 633825300114114700748351602688 (ite (= n 100) 1267650600228229401496703205376 (ite (= n 101) 2535301200456458802993406410752 (ite (= n 102) 5070602400912917605986812821504 (ite (= n 103) 10141204801825835211973625643008 (ite (= n 104) 20282409603651670423947251286016 (ite (= n 105) 40564819207303340847894502572032 (ite (= n 106) 81129638414606681695789005144064 (ite (= n 107) 162259276829213363391578010288128 (ite (= n 108) 324518553658426726783156020576256 (ite (= n 109) 649037107316853453566312041152512 (ite (= n 110) 1298074214633706907132624082305024 (ite (= n 111) 2596148429267413814265248164610048 (ite (= n 112) 5192296858534827628530496329220096 (ite (= n 113) 10384593717069655257060992658440192 (ite (= n 114) 20769187434139310514121985316880384 (ite (= n 115) 41538374868278621028243970633760768 (ite (= n 116) 83076749736557242056487941267521536 (ite (= n 117) 166153499473114484112975882535043072 (ite (= n 118) 332306998946228968225951765070086144 (ite (= n 119) 664613997892457936451903530140172288 (ite (= n 120) 1329227995784915872903807060280344576 (ite (= n 121) 2658455991569831745807614120560689152 (ite (= n 122) 5316911983139663491615228241121378304 (ite (= n 123) 10633823966279326983230456482242756608 (ite (= n 124) 21267647932558653966460912964485513216 (ite (= n 125) 42535295865117307932921825928971026432 (ite (= n 126) 85070591730234615865843651857942052864 (ite (= n 127) 170141183460469231731687303715884105728 340282366920938463463374607431768211456)))))))))))))))))))))))))))))))))))))))))))))))))))))))))))))))))))))))))))))))))))))))))))))))))))))))))))))))))))))))))))))))))
 ; exact real scaling: rs(v, e) denotes v / 10^e. Uninterpreted; instances of its
 ; axioms (theorems of real arithmetic, see prelude/Axioms.lean) are added per obligation.
 (declare-fun rs (Real Int) Real)
@@ -102,3 +94,6 @@
             (ite (> (* cd (p10 (- ed eo))) co) 1 (ite (= (* cd (p10 (- ed eo))) co) 0 (- 1))))
        (ite (> (- eo ed) 38) (- 1)
             (ite (> (* co (p10 (- eo ed))) cd) (- 1) (ite (= (* co (p10 (- eo ed))) cd) 0 1)))))))
+; shifts on spec integers (dual definition in the BV prelude: bvshl / bvlshr on 256 bits)
+(define-fun shl ((x Int) (o Int)) Int (* x (pow2 o)))
+(define-fun shr ((x Int) (o Int)) Int (div x (pow2 o)))
